@@ -22,6 +22,7 @@ OptSelTag = TOpt(SelTag)
 SeqSelList = TSeq(SelList)
 SeqSelNth = TSeq(SelNth)
 SeqStr = TSeq(STR)
+SeqSel = TSeq(Sel)
 SeqSelAttr = TSeq(SelAttr)
 SeqSelLang = TSeq(SelLang)
 SeqSelContains = TSeq(SelContains)
@@ -234,15 +235,15 @@ def sem_list(m: M, ns: NsMap, ifr: bool, el: Node, L: SelList) -> bool:
     if L.is_html:
         if not m.is_html:
             return False
-        return L.is_not != any_from(m, html_ns_map(), True, el, L, 0)
-    return L.is_not != any_from(m, ns, ifr, el, L, 0)
+        return L.is_not != any_from(m, html_ns_map(), True, el, L.selectors, 0)
+    return L.is_not != any_from(m, ns, ifr, el, L.selectors, 0)
 
 
-def any_from(m: M, ns: NsMap, ifr: bool, el: Node, L: SelList, i: int) -> bool:
-    """Some alternative L[j], j >= i, holds at el."""
-    if i < 0 or i >= len(L.selectors):
+def any_from(m: M, ns: NsMap, ifr: bool, el: Node, sels: SeqSel, i: int) -> bool:
+    """Some alternative sels[j], j >= i, holds at el."""
+    if i < 0 or i >= len(sels):
         return False
-    return sem_sel(m, ns, ifr, el, L.selectors[i]) or any_from(m, ns, ifr, el, L, i + 1)
+    return sem_sel(m, ns, ifr, el, sels[i]) or any_from(m, ns, ifr, el, sels, i + 1)
 
 
 def sem_sel(m: M, ns: NsMap, ifr: bool, el: Node, s: Sel) -> bool:
